@@ -18,7 +18,9 @@ import (
 	"net/http/httptest"
 	"net/url"
 	"strings"
+	"sync"
 	"testing"
+	"time"
 
 	"github.com/lestrrat-go/jwx/v2/jwa"
 	"github.com/lestrrat-go/jwx/v2/jwt"
@@ -432,6 +434,94 @@ func c02TargetedDPoP(t *testing.T, out *c02Out, rng *rand.Rand) {
 		adv3 := c02Op{Op: "advance", Ms: 4000}
 		out.emit(&adv3, w.exec(&adv3))
 		run(first, []string{"jti-after-expiry"})
+	}
+	w.ctrl.Finish()
+}
+
+// ---- wave 9 -------------------------------------------------------------------------------------------------------------
+
+// execTokSkew: the state "between token expiration and pruning of the database" (the comment in introspectAccessToken): the stored
+// record's Expiration lies op.Ms milliseconds BEFORE now while the store still returns the entry (re-put through the real store
+// API, so the entry lives a full TTL from now). Introspection must answer inactive at every instant after Expiration.
+func (w *c02World) execTokSkew(op *c02Op) string {
+	op.T = w.nowNs()
+	return c02Recover(func() string {
+		var rec AccessToken
+		if err := w.w.accessTokenServerStore().Get(w.realToken(op.Token), &rec); err != nil {
+			return "absent"
+		}
+		rec.Expiration = time.Now().Add(-time.Duration(op.Ms) * time.Millisecond)
+		if err := w.w.accessTokenServerStore().Put(w.realToken(op.Token), rec); err != nil {
+			return "put-failed"
+		}
+		return "skewed"
+	})
+}
+
+// execOnceOnly: op.Ms goroutines, each obtaining the s2s nonce store through the REAL per-request accessor (GetStore on the real
+// session database), register the same fresh key at the same moment; repeated for op.Key+"-<round>". At most one may be told "fresh".
+func (w *c02World) execOnceOnly(op *c02Op) string {
+	op.T = w.nowNs()
+	n := int(op.Ms)
+	worst := 0
+	for round := 0; round < 40; round++ {
+		key := fmt.Sprintf("%s-%d", op.Key, round)
+		start := make(chan struct{})
+		var wg sync.WaitGroup
+		var mu sync.Mutex
+		fresh := 0
+		for i := 0; i < n; i++ {
+			wg.Add(1)
+			go func() {
+				defer wg.Done()
+				store := w.w.s2sNonceStore()
+				<-start
+				if ok, err := store.PutIfAbsent(key, true); err == nil && ok {
+					mu.Lock()
+					fresh++
+					mu.Unlock()
+				}
+			}()
+		}
+		close(start)
+		wg.Wait()
+		if fresh > worst {
+			worst = fresh
+		}
+	}
+	return fmt.Sprintf("once-only max-fresh=%d", worst)
+}
+
+// c02TargetedExpiry (l): tokens whose record expired a fraction of a second ago but are still in the store: introspected at once
+// (plain and extended, direct and over HTTP) - inside the same wall-clock second for most offsets; plus the once-only registration
+// under real concurrency with per-request stores.
+func c02TargetedExpiry(t *testing.T, out *c02Out, rng *rand.Rand) {
+	g := &c02Gen{rng: rng, subjects: []string{"alpha", "alpha2", "beta"}}
+	cfg := g.newConfig(false)
+	w := c02NewWorld(t, cfg)
+	cfg.T = w.nowNs()
+	out.emit(&cfg, "cfg")
+	for i := 0; i < 40 && len(g.issued) < 8; i++ {
+		op := g.s2sRequest(nil, w.nowMs())
+		line := w.exec(&op)
+		out.emit(&op, line)
+		if strings.HasPrefix(line, "200 ") {
+			g.issued = append(g.issued, strings.Fields(line)[1][len("token="):])
+		}
+	}
+	for i, tok := range g.issued {
+		before := c02Op{Op: "introspect", Token: tok}
+		out.emit(&before, w.exec(&before))
+		sk := c02Op{Op: "tokskew", Token: tok, Ms: []int64{1, 20, 50, 120, 300, 450, 700, 999}[i%8]}
+		out.emit(&sk, w.exec(&sk))
+		for k := 0; k < 2; k++ {
+			in := c02Op{Op: "introspect", Token: tok, Extended: k == 1, HTTP: i%2 == 1}
+			out.emit(&in, w.exec(&in))
+		}
+	}
+	if !w.redis {
+		oo := c02Op{Op: "onceonly", Key: "race-nonce", Ms: 8}
+		out.emit(&oo, w.exec(&oo))
 	}
 	w.ctrl.Finish()
 }
